@@ -187,6 +187,40 @@ Definition parse_uri (https : bool) (host target : bytes) : option (bytes * byte
       end
   end.
 
+(** [uri::Authority::try_from(host).is_ok()]: the whole value is an authority *)
+Definition authority_ok (host : bytes) : bool :=
+  match authority_end host with Some e => (e =? length host)%nat | None => false end.
+(** the Host value that becomes the authority of the URI: only one which is an authority *)
+Definition usable_host (h : option bytes) : option bytes :=
+  match h with Some h' => if authority_ok h' then Some h' else None | None => None end.
+
+(** [Uri::from_maybe_shared(target)] for a target in origin form (it starts with '/'):
+    [PathAndQuery::from_shared] — a URI without scheme and authority. *)
+Definition origin_form (target : bytes) : bool := match target with c :: _ => c =? 47 | [] => false end.
+Definition parse_origin_form (target : bytes) : option (bytes * option bytes) :=
+  if 65534 <? N.of_nat (length target) then None else
+  match scan_path target with
+  | None => None
+  | Some (p, q) =>
+      if utf8_valid (p ++ match q with Some q' => 63 :: q' | None => [] end)
+      then Some ((if null p then [47] else p), q)
+      else None
+  end.
+
+(** The URI of a request: scheme "://" host target when there is a usable Host value, the origin-form
+    target alone when there is none; observed through [uri.authority()], [uri.path()], [uri.query()]. *)
+Definition uri_of (https : bool) (host : option bytes) (target : bytes) : option (option bytes * bytes * option bytes) :=
+  match host with
+  | Some h => match parse_uri https h target with Some (a, p, q) => Some (Some a, p, q) | None => None end
+  | None => match parse_origin_form target with Some (p, q) => Some (None, p, q) | None => None end
+  end.
+(** without a usable Host value a target that is not in origin form is refused ([NoHost]) *)
+Definition no_host (host : option bytes) (target : bytes) : bool :=
+  match host with Some _ => false | None => negb (origin_form target) end.
+(** what the request reader makes of Host value (header or default host's name) and target: [None] = refused *)
+Definition request_uri (https : bool) (hostv : option bytes) (target : bytes) : option (option bytes * bytes * option bytes) :=
+  if no_host (usable_host hostv) target then None else uri_of https (usable_host hostv) target.
+
 (** ** [kvarn_utils::parse::headers] *)
 
 Fixpoint position_non_ows (l : bytes) : option nat :=
@@ -324,31 +358,31 @@ Definition content_length_name : bytes := Eval vm_compute in B "content-length".
 
 Record request := mk_request {
   q_method : bytes; q_path : bytes; q_query : option bytes; q_version : N;
-  q_headers : hmap; q_authority : bytes; q_early : bytes }.
+  q_headers : hmap; q_authority : option bytes; q_early : bytes }.
 
-(** What [request] does with the loop's variables. *)
+(** What [request] does with the loop's variables.  (After the repairs 2fb2d8c / cdbcb3a of C15: a Host
+    value that is not an authority is not used for the URI, and without a usable Host value the
+    origin-form target is the URI.) *)
 Definition req_finish (https : bool) (dh : option bytes) (all : bytes) (s : scan) : outcome request :=
   if (sc_pe s <=? sc_ps s)%nat then Err E_NOPATH else
-  match (match hm_get host_name (sc_headers s) with Some h => Some h | None => dh end) with
-  | None => Err E_NOHOST
-  | Some host =>
-      obind (slice_chk (sc_ps s) (sc_pe s) all) (fun target =>
-      if negb (method_ok (sc_method s)) then Err E_INVALID_METHOD else
-      match parse_uri https host target with
-      | None => Err E_INVALID_PATH
-      | Some (auth, path, query) =>
-          match version_code (sc_ver s) with
-          | None => Err E_INVALID_VERSION
-          | Some v =>
-              match sc_end s with
-              | O => Panic                                   (* header_end - 1 *)
-              | S body_start =>
-                  obind (slice_chk body_start (length all) all) (fun early =>
-                  Ok (mk_request (sc_method s) path query v (sc_headers s) auth early))
-              end
+  let host := usable_host (match hm_get host_name (sc_headers s) with Some h => Some h | None => dh end) in
+  obind (slice_chk (sc_ps s) (sc_pe s) all) (fun target =>
+  if no_host host target then Err E_NOHOST else
+  if negb (method_ok (sc_method s)) then Err E_INVALID_METHOD else
+  match uri_of https host target with
+  | None => Err E_INVALID_PATH
+  | Some (auth, path, query) =>
+      match version_code (sc_ver s) with
+      | None => Err E_INVALID_VERSION
+      | Some v =>
+          match sc_end s with
+          | O => Panic                                   (* header_end - 1 *)
+          | S body_start =>
+              obind (slice_chk body_start (length all) all) (fun early =>
+              Ok (mk_request (sc_method s) path query v (sc_headers s) auth early))
           end
-      end)
-  end.
+      end
+  end).
 
 Definition parse_request (https : bool) (dh : option bytes) (buffer : bytes) : outcome request :=
   obind (req_loop buffer buffer 0 RMethod [] 0 0 [] 0) (req_finish https dh buffer).
@@ -642,7 +676,7 @@ Definition body_spec (mode : N) (early : bytes) (content_length limit : N) (ds :
 (** What a handler observes (everything but how many body bytes happened to arrive with the head). *)
 Record view := mk_view {
   w_method : bytes; w_path : bytes; w_query : option bytes; w_version : N;
-  w_headers : hmap; w_authority : bytes; w_body : outcome bytes }.
+  w_headers : hmap; w_authority : option bytes; w_body : outcome bytes }.
 Definition view_of (s : served) : view :=
   let q := sv_request s in
   mk_view (q_method q) (q_path q) (q_query q) (q_version q) (q_headers q) (q_authority q) (sv_body s).
@@ -740,18 +774,14 @@ Definition g_host (dh : option bytes) (g : greq) : option bytes :=
 (** What the property promises for a grammar request followed by [rest]. *)
 Record expected := mk_expected {
   x_method : bytes; x_path : bytes; x_query : option bytes; x_version : N;
-  x_headers : hmap; x_authority : bytes; x_body : bytes }.
+  x_headers : hmap; x_authority : option bytes; x_body : bytes }.
 Definition expect (https : bool) (dh : option bytes) (limit : N) (g : greq) (rest : bytes) : option expected :=
-  match g_host dh g with
+  match request_uri https (g_host dh g) (g_target g) with
   | None => None
-  | Some host =>
-      match parse_uri https host (g_target g) with
-      | None => None
-      | Some (auth, path, query) =>
-          let need := N.to_nat (N.min (body_length (g_method g) (g_hmap g)) limit) in
-          Some (mk_expected (g_method g) path query (if g_v11 g then 11 else 10) (g_hmap g) auth
-                            (firstn need rest))
-      end
+  | Some (auth, path, query) =>
+      let need := N.to_nat (N.min (body_length (g_method g) (g_hmap g)) limit) in
+      Some (mk_expected (g_method g) path query (if g_v11 g then 11 else 10) (g_hmap g) auth
+                        (firstn need rest))
   end.
 Definition observed (s : served) : option expected :=
   match sv_body s with
@@ -773,9 +803,9 @@ Definition x_hmap (m : hmap) : xval := x_list (x_pair XB XB) (hm_sorted m).
 
 Definition d_sched (x : xval) : option (list nat) := d_list d_nat x.
 
-Definition x_request_fields (method path : bytes) (query : option bytes) (version : N) (h : hmap) (auth : bytes)
+Definition x_request_fields (method path : bytes) (query : option bytes) (version : N) (h : hmap) (auth : option bytes)
   : list xval :=
-  [XB method; XB path; x_option XB query; XN version; x_hmap h; XL [XB auth]].
+  [XB method; XB path; x_option XB query; XN version; x_hmap h; x_option XB auth].
 
 (** component h1.request: (L https (L [default_host]) max_len end_mode stream (L burst..) limit) *)
 Definition run_request (x : xval) : xval :=
